@@ -1,0 +1,131 @@
+//go:build verif
+
+// Contracts for package buffer, read by /verif/govc. Comment-only; compiled only
+// under the build tag "verif".
+//
+// The abstract content of a Buffer is seq(b.bs), a value of the T-Bytes theory. Every
+// method states the new content as a function of the old one, and the frame
+// elems_frame(type(uint8), b.bs): byte cells outside the buffer's own backing array
+// (or its freshly allocated replacement) are untouched.
+
+package buffer
+
+//@ func (*buffer.Buffer).AppendByte
+//@   props C01 C08 C16
+//@   flags nopanic
+//@   requires b != nil
+//@   modifies b.bs, comp(E:uint8)
+//@   ensures seq(b.bs) == cat(old(seq(b.bs)), unit(v))
+//@   ensures elems_frame(type(uint8), b.bs)
+//@   ensures arr(b.bs) == old(arr(b.bs)) || fresh(b.bs)
+
+//@ func (*buffer.Buffer).AppendBytes
+//@   props C01 C08
+//@   flags nopanic
+//@   requires b != nil
+//@   modifies b.bs, comp(E:uint8)
+//@   ensures seq(b.bs) == cat(old(seq(b.bs)), old(seq(v)))
+//@   ensures elems_frame(type(uint8), b.bs)
+//@   ensures arr(b.bs) == old(arr(b.bs)) || fresh(b.bs)
+
+//@ func (*buffer.Buffer).AppendString
+//@   props C01 C08 C16
+//@   flags nopanic
+//@   requires b != nil
+//@   modifies b.bs, comp(E:uint8)
+//@   ensures seq(b.bs) == cat(old(seq(b.bs)), s)
+//@   ensures elems_frame(type(uint8), b.bs)
+//@   ensures arr(b.bs) == old(arr(b.bs)) || fresh(b.bs)
+
+//@ func (*buffer.Buffer).Write
+//@   props C01 C08 C13
+//@   flags nopanic
+//@   requires b != nil
+//@   modifies b.bs, comp(E:uint8)
+//@   ensures result.0 == len(bs) && result.1 == nil
+//@   ensures seq(b.bs) == cat(old(seq(b.bs)), old(seq(bs)))
+//@   ensures elems_frame(type(uint8), b.bs)
+//@   ensures arr(b.bs) == old(arr(b.bs)) || fresh(b.bs)
+
+//@ func (*buffer.Buffer).WriteByte
+//@   props C01
+//@   flags nopanic
+//@   requires b != nil
+//@   modifies b.bs, comp(E:uint8)
+//@   ensures result == nil && seq(b.bs) == cat(old(seq(b.bs)), unit(v))
+//@   ensures elems_frame(type(uint8), b.bs)
+
+//@ func (*buffer.Buffer).WriteString
+//@   props C01
+//@   flags nopanic
+//@   requires b != nil
+//@   modifies b.bs, comp(E:uint8)
+//@   ensures result.0 == len(s) && result.1 == nil && seq(b.bs) == cat(old(seq(b.bs)), s)
+//@   ensures elems_frame(type(uint8), b.bs)
+
+//@ func (*buffer.Buffer).Len
+//@   props C01 C08 C16
+//@   flags nopanic
+//@   requires b != nil
+//@   modifies nothing
+//@   ensures result == len(b.bs) && result == len(seq(b.bs))
+
+//@ func (*buffer.Buffer).Bytes
+//@   props C01 C08
+//@   flags nopanic
+//@   requires b != nil
+//@   modifies nothing
+//@   ensures result == b.bs
+
+//@ func (*buffer.Buffer).String
+//@   props C01 C08 C15
+//@   flags nopanic
+//@   requires b != nil
+//@   modifies nothing
+//@   ensures result == seq(b.bs)
+
+//@ func (*buffer.Buffer).Reset
+//@   props C01 C08
+//@   flags nopanic
+//@   requires b != nil
+//@   modifies b.bs
+//@   ensures len(b.bs) == 0 && seq(b.bs) == "" && arr(b.bs) == old(arr(b.bs))
+
+//@ func (*buffer.Buffer).TrimNewline
+//@   props C01 C16
+//@   flags nopanic
+//@   requires b != nil
+//@   modifies b.bs
+//@   ensures len(old(b.bs)) > 0 && at(old(seq(b.bs)), len(old(b.bs)) - 1) == '\n' ==> seq(b.bs) == sub(old(seq(b.bs)), 0, len(old(b.bs)) - 1)
+//@   ensures !(len(old(b.bs)) > 0 && at(old(seq(b.bs)), len(old(b.bs)) - 1) == '\n') ==> b.bs == old(b.bs)
+
+// pool.go
+
+//@ func (buffer.Pool).Get
+//@   props C08 C01
+//@   flags nopanic
+//@   requires p.p != nil
+//@   modifies nothing
+//@   ensures fresh(result) && len(result.bs) == 0 && seq(result.bs) == "" && result.pool == p
+//@   ensures arr(result.bs) == nil || fresh(result.bs)
+
+//@ func (buffer.Pool).put
+//@   props C08
+//@   flags nopanic
+//@   requires p.p != nil
+//@   modifies nothing
+
+//@ func (*buffer.Buffer).Free
+//@   props C08
+//@   flags nopanic
+//@   requires b != nil && b.pool.p != nil
+//@   modifies nothing
+
+//@ func (*buffer.Buffer).AppendInt
+//@   props C01 C08
+//@   flags nopanic
+//@   requires b != nil
+//@   modifies b.bs, comp(E:uint8)
+//@   ensures len(b.bs) >= len(old(b.bs)) && sub(seq(b.bs), 0, len(old(b.bs))) == old(seq(b.bs))
+//@   ensures elems_frame(type(uint8), b.bs)
+//@   ensures arr(b.bs) == old(arr(b.bs)) || fresh(b.bs)
